@@ -5,6 +5,7 @@ import (
 	"go/ast"
 	"go/token"
 	"go/types"
+	"math"
 	"strings"
 
 	"golang.org/x/tools/go/packages"
@@ -20,6 +21,7 @@ func checkC19(c *Ctx, r *Report) {
 	checkNudgeWhole(c, r)
 	checkSampleGrid(c, r)
 	checkPerspective(c, r)
+	checkTransformPointsWhole(c, r)
 	checkSampleGridForwarding(c, r)
 	checkSamplerRefusals(c, r)
 	checkSamplerWhole(c, r)
@@ -1457,4 +1459,97 @@ func checkSamplerWhole(c *Ctx, r *Report) {
 	}
 	reportFold(r, c, "S-SAMPLEW", key, fd.Pos(), bad)
 	r.DecidedByKeys("M-SAMPLE", "S-SAMPLEW", "the sampler folded as a whole: seeding of the cell centres, the order transform - nudge - read, the per-pixel guard", ".cell-centres", ".cell-mapping", ".nudge-dominates", ".nudged-slice", ".upper-bound")
+}
+
+// S-TRANSFORMW: both point-transforming methods folded whole on concrete transforms and points.
+func checkTransformPointsWhole(c *Ctx, r *Report) {
+	r.Rule("S-TRANSFORMW", "PerspectiveTransform.TransformPoints (interleaved coordinates) and TransformPointsXY (two lists) folded whole, in float64, on four transforms - the identity, an affine one whose a33 is not 1 (what buildAdjoint and times produce: a13 = a23 = 0, a33 = 196), a projective one, a projective one with a negative a33 - and six points each: every point (x, y) becomes ((a11 x + a21 y + a31)/d, (a12 x + a22 y + a32)/d) with d = a13 x + a23 y + a33 (relative tolerance 1e-12), nothing else in the lists changes, and the two methods agree", 2)
+	transforms := [][9]float64{
+		{1, 0, 0, 0, 1, 0, 0, 0, 1},
+		{2744, -392, 980, 588, 1960, -2352, 0, 0, 196},
+		{1.5, 0.25, 3, -0.5, 2, 7, 0.001, 0.002, 1},
+		{-3, 1, 10, 2, -4, 5, 0.01, -0.02, -2.5},
+	}
+	pts := [][2]float64{{0, 0}, {1, 0}, {0.5, 0.5}, {3.5, 3.5}, {17.5, -4.25}, {-2, 30}}
+	names := []string{"a11", "a21", "a31", "a12", "a22", "a32", "a13", "a23", "a33"}
+	ref := func(t [9]float64, x, y float64) (float64, float64) {
+		d := t[6]*x + t[7]*y + t[8]
+		return (t[0]*x + t[1]*y + t[2]) / d, (t[3]*x + t[4]*y + t[5]) / d
+	}
+	close := func(a, b float64) bool { return math.Abs(a-b) <= 1e-12*math.Max(1, math.Max(math.Abs(a), math.Abs(b))) }
+	flt := func(v *Val) (float64, bool) {
+		switch v.K {
+		case VFloat:
+			return v.F, true
+		case VInt:
+			return float64(v.I), true
+		}
+		return 0, false
+	}
+	for _, m := range []string{"TransformPoints", "TransformPointsXY"} {
+		fd, p := c.funcDeclOf("common", "PerspectiveTransform."+m)
+		key := "common.PerspectiveTransform." + m + "/whole"
+		if fd == nil {
+			r.AnchorLost("S-TRANSFORMW", key, "method not found")
+			continue
+		}
+		r.Analysed(key)
+		bad := ""
+		for ti, t := range transforms {
+			if bad != "" {
+				break
+			}
+			recv := &Val{K: VStruct, Ptr: true, Fields: map[string]*Val{}}
+			for i, n := range names {
+				recv.Fields[n] = &Val{K: VFloat, F: t[i]}
+			}
+			var args []*Val
+			if m == "TransformPoints" {
+				l := &Val{K: VList, Local: true}
+				for _, q := range pts {
+					l.L = append(l.L, &Val{K: VFloat, F: q[0]}, &Val{K: VFloat, F: q[1]})
+				}
+				args = []*Val{l}
+			} else {
+				xs, ys := &Val{K: VList, Local: true}, &Val{K: VList, Local: true}
+				for _, q := range pts {
+					xs.L = append(xs.L, &Val{K: VFloat, F: q[0]})
+					ys.L = append(ys.L, &Val{K: VFloat, F: q[1]})
+				}
+				args = []*Val{xs, ys}
+			}
+			h := &rpf{unroll: 64, env: map[types.Object]*Val{}}
+			if ro := recvObj(p, fd); ro != nil {
+				h.env[ro] = recv
+			}
+			if _, err := c.rpfCall(fd, p, args, h); err != nil {
+				bad = fmt.Sprintf("?transform %d: %v", ti, err)
+				break
+			}
+			for i, q := range pts {
+				var gx, gy *Val
+				if m == "TransformPoints" {
+					if len(args[0].L) != 2*len(pts) {
+						bad = "the list changes its length"
+						break
+					}
+					gx, gy = args[0].L[2*i], args[0].L[2*i+1]
+				} else {
+					if len(args[0].L) != len(pts) || len(args[1].L) != len(pts) {
+						bad = "a list changes its length"
+						break
+					}
+					gx, gy = args[0].L[i], args[1].L[i]
+				}
+				wx, wy := ref(t, q[0], q[1])
+				fx, okx := flt(gx)
+				fy, oky := flt(gy)
+				if !okx || !oky || !close(fx, wx) || !close(fy, wy) {
+					bad = fmt.Sprintf("transform %d (a13 = %g, a23 = %g, a33 = %g): the point (%g, %g) becomes (%s, %s), the projective map gives (%g, %g)", ti, t[6], t[7], t[8], q[0], q[1], gx, gy, wx, wy)
+					break
+				}
+			}
+		}
+		reportFold(r, c, "S-TRANSFORMW", key, fd.Pos(), bad)
+	}
 }
